@@ -2,6 +2,7 @@
 import hashlib
 import json
 import os
+import time
 import re
 import shutil
 
@@ -62,8 +63,21 @@ def build(scratch, seed=None):
     key = "s%d-" % rseed + _hash_tree([os.path.join(V.REPO, "cmd", "protoc-gen-fastmarshal"), os.path.join(V.HARNESS, "corpus"),
                       os.path.join(V.HARNESS, "cmd", "corpusgen"), os.path.join(V.REPO, "go.mod")]) + "-" + hashlib.sha256(SETS.encode()).hexdigest()[:6]
     d = os.path.join(CACHE, key)
+    os.makedirs(CACHE, exist_ok=True)
+    # checks of several properties may run at the same time: generation and clean-up are serialised by a lock file
+    import fcntl
+    lock = open(os.path.join(CACHE, ".lock"), "w")
+    fcntl.flock(lock, fcntl.LOCK_EX)
+    try:
+        _generate(scratch, d, rseed, nrandom)
+    finally:
+        fcntl.flock(lock, fcntl.LOCK_UN)
+        lock.close()
+    return _compile(scratch, d)
+
+
+def _generate(scratch, d, rseed, nrandom):
     if not os.path.exists(os.path.join(d, "corpus.json")):
-        os.makedirs(CACHE, exist_ok=True)
         tmp = d + ".tmp%d" % os.getpid()
         shutil.rmtree(tmp, ignore_errors=True)
         os.makedirs(tmp)
@@ -79,11 +93,18 @@ def build(scratch, seed=None):
         with open(os.path.join(tmp, "go.mod"), "w") as f:
             f.write(GOMOD % (V.REPO, V.HARNESS))
         shutil.copy(os.path.join(V.HARNESS, "go.sum"), os.path.join(tmp, "go.sum"))
-        # one generation is kept
-        for old in os.listdir(CACHE):
-            if old != os.path.basename(tmp):
-                shutil.rmtree(os.path.join(CACHE, old), ignore_errors=True)
         os.replace(tmp, d)
+        # a few generations are kept (another check may be using one right now): the oldest beyond four, and nothing younger than an hour
+        gens = sorted((g for g in os.listdir(CACHE) if os.path.isdir(os.path.join(CACHE, g)) and g != os.path.basename(d)),
+                      key=lambda g: os.path.getmtime(os.path.join(CACHE, g)))
+        for g in gens[:-3] if len(gens) > 3 else []:
+            if time.time() - os.path.getmtime(os.path.join(CACHE, g)) > 3600:
+                shutil.rmtree(os.path.join(CACHE, g), ignore_errors=True)
+    else:
+        os.utime(d, None)
+
+
+def _compile(scratch, d):
     entries = json.load(open(os.path.join(d, "corpus.json")))
     # compile (against the current /repo: the go build cache makes this incremental)
     p = V.run(["go", "build", "./gen/..."], cwd=d, timeout=1800, check=False)
